@@ -40,18 +40,21 @@ def closeBE (k : String) : BE :=
   .cmpF .le (.un .abs (.bin .sub (.ld1 "src_window" (.var k)) (.var "val")))
     (.bin .add (.var "atol") (.bin .mul (.var "rtol") (.un .abs (.var "val"))))
 
-/-- `is_close = np.abs(src_window - val) <= atol + rtol*np.abs(val)` as the translator expands it -/
+def closeBody (ek : String) : St :=
+  .ite (closeBE ek) (.stI1 "is_close" (.var ek) (.lit 1)) (.stI1 "is_close" (.var ek) (.lit 0))
+
 def closeLoop (ek : String) : St :=
-  .forRange ek (.lit 0) (.dim "src_window" 0) (.lit 1)
-    (.ite (closeBE ek) (.stI1 "is_close" (.var ek) (.lit 1)) (.stI1 "is_close" (.var ek) (.lit 0)))
+  .forRange ek (.lit 0) (.dim "src_window" 0) (.lit 1) (closeBody ek)
 
 /-- `neighbor_matches = np.where(is_close)[0]` as the translator expands it (after the allocation) -/
+def whereBody (wn wk : String) : St :=
+  .ite (.cmpI .ne (.ld1 "is_close" (.var wk)) (.lit 0))
+    (.seq (.stI1 "neighbor_matches" (.var wn) (.var wk))
+    (.setI wn (.bin .add (.var wn) (.lit 1))))
+    .skip
+
 def whereLoop (wn wk : String) : St :=
-  .forRange wk (.lit 0) (.dim "is_close" 0) (.lit 1)
-    (.ite (.cmpI .ne (.ld1 "is_close" (.var wk)) (.lit 0))
-      (.seq (.stI1 "neighbor_matches" (.var wn) (.var wk))
-      (.setI wn (.bin .add (.var wn) (.lit 1))))
-      .skip)
+  .forRange wk (.lit 0) (.dim "is_close" 0) (.lit 1) (whereBody wn wk)
 
 /-- tolerances, closeness mask, `np.where`; then `rest` -/
 def matchThen (ek wn wk : String) (rest : St) : St :=
